@@ -466,6 +466,36 @@ class Prop(core.Prop):
             except Exception as e:
                 vs.append(viol('raises', ('bpch2', 'noscale' if ns else 'scaled'), '%s: %r' % (type(e).__name__, e),
                                exc=type(e).__name__, reader='bpch2', **scope))
+        # 4b. the tracer table next to the file is replaced (other scale factors and units) and the file is read
+        # again in the same process: both readers follow the table that is there now
+        if case['tables'] == 'complete' and not vs:
+            try:
+                with open(os.path.join(d, 'tracerinfo.dat'), 'w') as fh:
+                    fh.write('# reference tracerinfo, second edition\n')
+                    for off in (0, 1000):
+                        for num, name, scale, unit in TRACERS[off]:
+                            fh.write(rf.tracerinfo_line(name, name + ' tracer', 2.8e-2, 1, num, scale * 1000., unit + 'x') + '\n')
+                for rd in ('bpch1', 'bpch2'):
+                    with quiet():
+                        fr_ = P.pncopen(path, format=rd)
+                    ntrans += 1
+                    for k, v in enumerate(vars_):
+                        cat, off, num, name, scale, unit, nl = v
+                        kk = key(v)
+                        if kk not in fr_.variables.keys():
+                            continue
+                        var = fr_.variables[kk]
+                        got = np.asarray(var[...], 'd')
+                        want = np.array([r['blocks'][t][k]['data'] for t in range(case['nt'])]).astype('d') * scale * 1000.
+                        if str(getattr(var, 'units', '')).strip() != unit + 'x' or got.shape != want.shape \
+                                or not np.allclose(got, want, rtol=1e-6, atol=0):
+                            vs.append(viol('stale-tracer-table', (rd, 'table-replaced'),
+                                           '%s after tracerinfo.dat was replaced: units %r (table: %r), values %s (table: %s)'
+                                           % (kk, getattr(var, 'units', None), unit + 'x', got.ravel()[:2], want.ravel()[:2]),
+                                           reader=rd, **scope))
+                            break
+            except Exception as e:
+                vs.append(viol('raises', ('table-replaced',), '%s: %r' % (type(e).__name__, e), exc=type(e).__name__, **scope))
         # 5. the master class bpch(...) hands every option to whichever reader it uses
         for rd in (None, 'bpch1', 'bpch2'):
             for ns in (True, False):
